@@ -191,15 +191,15 @@ func protectGCM(t *engine.T, k *key, co cipherOpt) {
 		der, err := encryptP8(enc, lane("gcm/"+co.name+kd.name+k.name), pw, k.p8)
 		if err != nil {
 			t.Eval(1)
-			t.Fail("roundtrip/pkcs8-enc/pbes2/"+co.name+"/"+kdfFamily(kd.name)+"/"+k.class()+"/encode-error", "key %s: %v", k.name, err)
+			t.Fail("roundtrip/pkcs8-enc/pbes2/"+co.name+"/"+kdfFamily(kd.name)+"/encode-error", "key %s: %v", k.name, err)
 			continue
 		}
 		if g, _, err := pkcs8.ParsePrivateKey(der, pw); err != nil {
 			t.Eval(1)
-			t.Fail("roundtrip/pkcs8-enc/pbes2/"+co.name+"/"+kdfFamily(kd.name)+"/"+k.class()+"/decode-error", "key %s: %v", k.name, err)
+			t.Fail("roundtrip/pkcs8-enc/pbes2/"+co.name+"/"+kdfFamily(kd.name)+"/decode-error", "key %s: %v", k.name, err)
 			continue
 		} else if ok, why := same(k, g); !ok {
-			t.Fail("roundtrip/pkcs8-enc/pbes2/"+co.name+"/"+kdfFamily(kd.name)+"/"+k.class()+"/mismatch", "key %s: %s", k.name, why)
+			t.Fail("roundtrip/pkcs8-enc/pbes2/"+co.name+"/"+kdfFamily(kd.name)+"/mismatch", "key %s: %s", k.name, why)
 			continue
 		}
 		mutate(t, k, "gcm", der, []string{"encryptionAlgorithm", "encryptedData"}, costSafe,
